@@ -25,6 +25,15 @@ def check_C03(report):
     n, length = _sizes(report, (240, 12), (4000, 25))
     seq.model_check(report, 3, 5, ['Inv_IndexOK', 'Inv_Dedup'], [])
     traces = seq.run_histories(report, 'C03', n, length, ['C03'], sim=(80 if report.tier == 'quick' else 1200, 12))
+    # unusual inputs: streams handed over at a non-zero position, in every direct-to-pack parameter combination
+    def offset_history(rng, _length):
+        steps = [seq.random_step(rng, 'C03') for _ in range(rng.randint(0, 3))]
+        for _ in range(rng.randint(1, 3)):
+            steps.append({'name': 'addpack', 'keys': [rng.choice(seq.UNIVERSE[:8]) for _ in range(rng.randint(1, 3))],
+                          'z': rng.random() < 0.5, 'noholes': rng.random() < 0.7, 'twice': rng.random() < 0.6, 'via': 'offset'})
+        return steps
+    traces += seq.run_histories(report, 'C03-offset', 80 if report.tier == 'quick' else 1500, 0, ['C03'], generator=offset_history,
+                                conform=False)
     bad = [(t['tid'], i) for t in traces for i, line in enumerate(t['lines']) if line['recipe_bad']]
     for tid, i in bad[:5]:
         trace = traces[tid - 1]
@@ -46,7 +55,17 @@ def check_C13(report):
 def check_C09_seq(report):
     n, length = _sizes(report, (240, 12), (3000, 25))
     seq.model_check(report, 3, 5, ['Inv_Dedup', 'Inv_IndexOK'], ['Act_NoHoles'])
-    seq.run_histories(report, 'C09', n, length, ['C09'], sim=(80 if report.tier == 'quick' else 1200, 12))
+    extra = []
+    cfg = {'hash': 'sha256', 'prefix': 2, 'zlevel': 1, 'target': 10 ** 9}
+    for how in ('first', 'last', 'truncate', 'empty', 'grow'):
+        for key in ('k2', 'k3', 'k7'):
+            for via in ('bytes', 'stream'):
+                readd = {'name': 'readd', 'keys': [key], 'via': via, 'how': how}
+                add = {'name': 'add', 'keys': [key], 'via': via}
+                extra.append((cfg, [add, readd]))
+                extra.append((cfg, [add, add, readd, readd]))
+                extra.append((cfg, [add, {'name': 'pack', 'mode': 'NO', 'perpack': False, 'validate': True}, add, readd]))
+    seq.run_histories(report, 'C09', n, length, ['C09'], sim=(80 if report.tier == 'quick' else 1200, 12), extra_histories=extra)
     report.assumptions += ASSUME
 
 
